@@ -296,7 +296,7 @@ class Gen:
     def step(self, prog, p, depth, allow=None):
         fr = p.frame
         kinds = ["derive"] * 4 + ["filter"] * 3 + ["select"] * 3 + ["sort"] * 2 + ["take"] * 2 + ["aggregate", "group-agg", "group-take", "group-derive", "window"] \
-            + ["join"] * 3 + ["append", "append", "loop", "pipefunc", "sort-select", "derive-window", "group-append"]
+            + ["join"] * 3 + ["append", "append", "loop", "pipefunc", "sort-select", "derive-window", "group-append", "group-sort-agg-take", "join-exclude"]
         if allow:
             kinds = [k for k in kinds if k in allow]
         k = self.pick(kinds)
@@ -378,6 +378,12 @@ class Gen:
                     p.push("group %s (aggregate {%s = count this, %s = sum %s})" % (ktxt, n1, n2, v[0]), "group-agg", Frame(kcols + [Col(n1), Col(n2)], [], fr.pools))
             elif k == "group-take":
                 p.push("group %s (sort %s | take %d)" % (ktxt, v[0], self.r.randrange(1, 4)), "group-take", fr.copy())
+            elif k == "group-sort-agg-take":
+                # a sort inside a group body whose column the body's aggregate drops, then a take (F1's other dropper)
+                n1 = self.newname("n")
+                prog.features.add("group-sort-agg-take")
+                p.push("group %s (sort %s | aggregate {%s = %s} | take %d)" % (ktxt, v[0], n1, self.pick(["count this", "max %s" % v[0]]), self.r.randrange(1, 3)),
+                       "group-agg", Frame(kcols + [Col(n1)], [], fr.pools))
             else:
                 name = self.newname("r")
                 body = self.pick(["derive {%s = rank %s}" % (name, v[0]), "sort %s | derive {%s = row_number this}" % (v[0], name),
@@ -440,6 +446,28 @@ class Gen:
             nf = Frame(fr.cols + sfr.cols, fr.wild + sfr.wild, dict(fr.pools, **sfr.pools))
             prog.features.add("join-" + skind)
             p.push("join %s%s %s" % (side, stxt, condt), "join", nf)
+        elif k == "join-exclude":
+            # a joined sub-pipeline that excludes a column with `select !{..}`, and a use of that column from outside through
+            # the table's name (F7's family)
+            if fr.cols or len(fr.wild) != 1 or self.closed or depth < 0:
+                return
+            tn = fr.wild[0]
+            if "id" not in fr.pools.get(tn, []):
+                return
+            others = [t for t in TABLES if t != tn and "id" in TABLES[t] and t not in fr.pools]
+            if not others:
+                return
+            u = self.pick(others)
+            d = self.pick([c for c in TABLES[u] if c != "id"])
+            side = self.pick(["", "", "side:left "])
+            prog.features.add("join-exclude")
+            jtxt = "join %s(from %s | select !{%s}) (==id)" % (side, u, d)
+            if self.chance(0.6):
+                p.push("%s | select {%s.%s}" % (jtxt, u, d), "join-exclude", Frame([Col(d)], [], {}))
+            else:
+                use = self.pick(["filter %s.%s > %d" % (u, d, self.r.randrange(9)), "derive {%s = %s.%s + 1}" % (self.newname("x"), u, d), "sort %s.%s" % (u, d)])
+                # the joined columns are not tracked: later steps address the first input only through its name
+                p.push("%s | %s" % (jtxt, use), "join-exclude", Frame([Col(c, tn) for c in fr.pools[tn][:2]], [], {tn: fr.pools[tn]}))
         elif k == "append":
             if depth < 0:
                 return
@@ -580,4 +608,27 @@ FIXED = [
     "from t | sort a | append (from u | derive {r = row_number this} | take 2)",
     "from t | group {g} (take 2 | append (from u | take 3))",
     "let a1 = (from t | select {id, a})\nlet a2 = (from a1 | join u (==id) | select {a1.id, u.d})\nlet a3 = (from a2 | join a1 (==id))\nfrom a3 | take 2",
+    # F1's two droppers that are still there (Select; Aggregate of a group body) and the one that was repaired (8d54bf7)
+    "from t | group {g} (sort a | aggregate {n = count this} | take 1)",
+    "from t | sort {a, -b} | select {c} | derive {r = row_number this}",
+    "from t | sort a | aggregate {n = count this} | take 3",
+    "from t | sort a | aggregate {n = count this} | derive {r = row_number this}",
+    # F7's family: a column excluded inside a joined sub-pipeline, named from outside
+    "from t | join (from u | select !{d}) (==id) | select {u.d}",
+    "from t | join (from u | select !{d}) (==id) | filter u.d > 1",
+    "from t | join side:left (from v | select !{x, y}) (==id) | derive {z = v.x + 1} | select {z}",
+    "from t | join (from u | select !{d}) (==id) | sort u.d",
+    # F6's family: a relation parameter mentioned twice
+    "let dup = rel -> (rel | append rel)\nfrom t | select {a, b} | dup",
+    "let dbl = n rel -> (rel | append (rel | take n))\nfrom t | derive {x = a + 1} | filter x > 1 | dbl 2",
+    # repaired: F4 (duplicate / unnamed columns of an instantiated sub-pipeline), F3 (multi-input relation instantiated), F5 (partition)
+    "from t | join (from u | select {c, d} | join (from v | select {c}) true) true",
+    "from t | join (from u | select {c, d} | join (from v | select {c}) true) true | select {t.a}",
+    "from t | select {a, b} | append (from u | select {d + 1, e + 1})",
+    "from t | join (from u | select {id, d * 2, e * 2}) (==id) | select {t.a, u.id}",
+    "let tab = (from t | select {a} | join u (==a))\nfrom tab | filter id > 1",
+    "from x = (from t | select {a} | join u (==a)) | filter x.id > 1",
+    "from t | group {g} (derive {r = rank a} | append (from u | derive {q = row_number this}))",
+    "from t | group {g} (take 2 | append (from u | group {k} (take 1)))",
+    "from t | window rolling:3 (derive {m = sum a} | append (from u | derive {q = sum d}))",
 ]
